@@ -994,6 +994,7 @@ class io_uring_context::schedule_at_sender {
       this->context_.schedule_at_impl(this);
 
       if constexpr (is_stop_ever_possible) {
+        UNIFEX_VERIF_YIELD("timer.ur.start_cb");
         stopCallback_.construct(
             get_stop_token(receiver_), cancel_callback{*this});
       }
@@ -1031,10 +1032,12 @@ class io_uring_context::schedule_at_sender {
     }
 
     void request_stop_remote() noexcept {
+      UNIFEX_VERIF_YIELD("timer.ur.stop_fa");
       auto oldState = this->state_.fetch_add(
           schedule_at_operation::cancel_pending_flag,
           std::memory_order_acq_rel);
       if ((oldState & schedule_at_operation::timer_elapsed_flag) == 0) {
+        UNIFEX_VERIF_YIELD("timer.ur.stop_won");
         // Timer had not yet elapsed.
         // We are responsible for scheduling the completion of this timer
         // operation.
